@@ -241,7 +241,7 @@ func (e *crashEnv) traced(c *crashCase, sub string, inject []string) (vfs.Result
 	a := c.Args
 	a.File = file
 	ab, _ := json.Marshal(a)
-	env := append(os.Environ(), "VERIF_CHILD=crashop", "VERIF_CHILD_ARGS="+string(ab), "VERIF_CHILD_OUT=", "VERIF_RACE_CHILD=1")
+	env := childEnv("crashop", string(ab))
 	res, err := vfs.Run(vfs.Options{Argv: []string{os.Args[0]}, Env: env, Dir: dir, Inject: inject, LogPath: filepath.Join(dir, "strace.log"), Timeout: 90 * time.Second})
 	return res, file, err
 }
@@ -336,13 +336,13 @@ func (e *crashEnv) runCase(c *crashCase) {
 			defer e.wg.Done()
 			e.sem <- struct{}{}
 			defer func() { <-e.sem }()
-			res, file, err := e.traced(c, fmt.Sprintf("k%d", p.Index), []string{vfs.KillAt("", p.Ord)})
+			res, file, err := e.traced(c, fmt.Sprintf("k%d", p.Index), []string{vfs.KillAt(p.Name, p.NameOrd)})
 			if err != nil || res.TimedOut {
 				run.Inconclusive(fmt.Sprintf("crash case %s: injected run failed: %v", c.id(), err))
 				return
 			}
 			run.Eval(1)
-			hit, ok := res.Trace.HitAt(p.Ord)
+			hit, ok := res.Trace.HitAt(p.Name, p.NameOrd)
 			_, began, complete := res.Trace.Window(vfs.MarkBegin, vfs.MarkEnd)
 			name := p.Name
 			if res.Killed && ok && began && !complete && hit.Tid == res.Trace.MainTid {
